@@ -208,6 +208,14 @@ fn process(line: &str, want_idents: bool, out: &mut dyn Write) {
         Ok(Err(e)) => writeln!(out, "{{\"id\":{},\"st\":\"err\",\"msg\":{}}}", esc(id), esc(&e.to_string())).unwrap(),
         Ok(Ok(tokens)) => {
             // --no-raw: only the split items are wanted (the canonical string of the whole expansion is the larger half of the output)
+            // --hash-raw: the canonical string of the whole expansion is reported as its FNV-1a hash (enough to compare expansions), without the split items
+            let hash_raw = std::env::args().any(|a| a == "--hash-raw");
+            if hash_raw {
+                let c = canon(tokens.clone());
+                let impls = c.matches("impl").count();
+                writeln!(out, "{{\"id\":{},\"st\":\"ok\",\"raw\":{},\"impls\":{}}}", esc(id), esc(&format!("#{:016x}/{}", fnv1a(&c), c.len())), impls).unwrap();
+                return;
+            }
             let raw = if no_raw { String::new() } else { canon(tokens.clone()) };
             let mut s = format!("{{\"id\":{},\"st\":\"ok\",\"raw\":{}", esc(id), esc(&raw));
             match syn::parse2::<Items>(tokens.clone()) {
